@@ -36,6 +36,8 @@ def units(tier):
     for q in ("identity", "_get_dict", "ismsm", "_do_unknown", "serialize", "payload"):
         us += func_units(f"{M}.{q}", tier)
     us += func_units(f"{M}._do_attributes", tier, only=lambda inst: inst["identity"].startswith("unknown"))
+    for q in ("calc_crc24q", "crc2bytes", "len2bytes"):  # "serialise back to the same frame": the framing helpers serialize() uses
+        us += func_units("pyrtcm.rtcmhelpers." + q, tier)
     us += func_units(f"{M}.__init__", tier)  # a payload that carries a message number is never refused by the constructor's guard
     us.append(ground_unit("C15.table_lemmas", table_lemmas))
     from pyvc import clientrun
